@@ -10,6 +10,8 @@ import (
 	"net/http"
 	"net/url"
 	"strings"
+	"sync"
+	"sync/atomic"
 	"time"
 
 	"github.com/golang-jwt/jwt/v4"
@@ -192,7 +194,7 @@ func c09Routes() []routeCase {
 func runC09(tier string, _ []string) int {
 	c := vlib.NewCtx("C09", tier, "exploration")
 	vlib.SetPortBlock(9)
-	c.SetRule("part A: an instance configured with an auth token; methods x node routes (/v1/nodes, /:id, /points, /samples, /parents, /not, unknown; path-cleaning variants) x 27 Authorization values (absent, empty, the token and near misses, Bearer variants, the instance's JWT, JWTs minted with the instance key read from the store file: other key, empty key, HS384, HS512, none, expired, payload-tampered, truncated, unsigned, garbage; plus a token used while valid and again after its expiry) x bodies; each probe targets a fresh id and an existing node; monitor: status 401 for every non-credential, no bus message mentioning the probe id on a '>' tap, tree dump unchanged; credentials must be served; NATS TCP and WebSocket connects without / with a wrong token must fail. part B: user placements (created, moved, mirrored, deleted, re-added, under a deleted group, two users with one e-mail, wrong password) vs /v1/auth: token issued exactly when the model finds a live path to the root; the node listing for the issued token is a subset of the subtrees of the user's live placements. distinct = (credential, route kind, outcome) / (placement scenario, model verdict)")
+	c.SetRule("part A: an instance configured with an auth token; methods x node routes (/v1/nodes, /:id, /points, /samples, /parents, /not, unknown; path-cleaning variants) x 27 Authorization values (absent, empty, the token and near misses, Bearer variants, the instance's JWT, JWTs minted with the instance key read from the store file: other key, empty key, HS384, HS512, none, expired, payload-tampered, truncated, unsigned, garbage; plus a token used while valid and again after its expiry) x bodies; then all credentials at once from 12 goroutines (each answer must be the one its own credential deserves); each probe targets a fresh id and an existing node; monitor: status 401 for every non-credential, no bus message mentioning the probe id on a '>' tap, tree dump unchanged; credentials must be served; NATS TCP and WebSocket connects without / with a wrong token must fail. part B: user placements (created, moved, mirrored, deleted, re-added, under a deleted group, two users with one e-mail, wrong password) vs /v1/auth: token issued exactly when the model finds a live path to the root; the node listing for the issued token is a subset of the subtrees of the user's live placements. distinct = (credential, route kind, outcome) / (placement scenario, model verdict)")
 	c.Assume("'open' header forms (whitespace around the token, lower-case scheme) are only required to leave no trace if answered 401")
 	cl := &http.Client{Timeout: 30 * time.Second}
 
@@ -400,6 +402,69 @@ func runC09(tier string, _ []string) int {
 			c.Distinct("jwt-expired-after-use -> 401")
 		} else {
 			c.Count("expiring_token_first_use_came_too_late", 1)
+		}
+		// ---- the same credentials all at once: what one request proves must not rub off on another
+		// (a verdict remembered from the previous or a concurrent request)
+		{
+			type job struct {
+				cr credCase
+				m  string
+				p  string
+				b  string
+			}
+			var jobs []job
+			for rep := 0; rep < 6; rep++ {
+				for _, cr := range creds {
+					if cr.Expect == "open" {
+						continue
+					}
+					jobs = append(jobs, job{cr, "GET", "/v1/nodes/" + existing, grp}, job{cr, "POST", "/v1/nodes/" + existing + "/points", `[{"type":"conc","value":1}]`})
+				}
+			}
+			r.Shuffle(len(jobs), func(a, b int) { jobs[a], jobs[b] = jobs[b], jobs[a] })
+			var wg sync.WaitGroup
+			var mu sync.Mutex
+			var firstBad string
+			var badWit map[string]any
+			next := int64(-1)
+			for w := 0; w < 12; w++ {
+				wg.Add(1)
+				go func() {
+					defer wg.Done()
+					for {
+						k := int(atomic.AddInt64(&next, 1))
+						if k >= len(jobs) {
+							return
+						}
+						j := jobs[k]
+						res, err := doHTTP(cl, j.m, base+j.p, j.cr.Value, j.cr.Has, []byte(j.b), "application/json")
+						if err != nil {
+							continue
+						}
+						wrong := (j.cr.Expect == "reject" && res.Status != 401) || (j.cr.Expect == "accept" && res.Status == 401)
+						if wrong {
+							mu.Lock()
+							if firstBad == "" {
+								firstBad = fmt.Sprintf("%s %s with credential %q answered %d while %d requests with other credentials were in flight", j.m, j.p, j.cr.Name, res.Status, 11)
+								badWit = map[string]any{"credential": j.cr.Name, "method": j.m, "path": j.p, "status": res.Status, "expect": j.cr.Expect}
+							}
+							mu.Unlock()
+						}
+					}
+				}()
+			}
+			wg.Wait()
+			c.Eval(len(jobs))
+			if firstBad != "" {
+				sig := "auth:served-without-credentials:concurrent-requests"
+				if badWit["expect"] == "accept" {
+					sig = "auth:valid-credential-refused:concurrent-requests"
+				}
+				c.Violate(sig, firstBad, badWit)
+				return
+			}
+			c.Count("concurrent_mixed_credential_requests", int64(len(jobs)))
+			c.Distinct("concurrent mixed credentials")
 		}
 		// a valid credential really reaches the node
 		existing, err = d.create(grp, "variable", false)
